@@ -772,10 +772,24 @@ class Interp:
             commits = max(commits, s2.commits)
             after |= s2.after
             # refinements of objects passed by name flow back (same object)
-            for p, a in amap.items():
-                if isinstance(a, ast.Name) and isinstance(s2.env.get(p), Obj) and isinstance(st.env.get(a.id), Obj):
-                    pass
         st.dirty, st.commits, st.after = dirty, commits, after
+        # refinements of objects passed by name flow back: the parameter denotes the caller's object for the whole call
+        # unless the callee rebinds the parameter name; the caller continues with the join over the normal returns
+        rebound = {n.id for n in ast.walk(callee) if isinstance(n, ast.Name) and isinstance(n.ctx, (ast.Store, ast.Del))}
+        for p, a in amap.items():
+            if isinstance(a, ast.Name) and p not in rebound and isinstance(st.env.get(a.id), Obj) and sub.returns:
+                j = None
+                for i, (v, s2) in enumerate(sub.returns):
+                    o2 = s2.env.get(p)
+                    if not isinstance(o2, Obj):
+                        j = None
+                        break
+                    j = o2 if i == 0 else join_val(j, o2)
+                if isinstance(j, Obj):
+                    o0 = st.env[a.id]
+                    # only narrowing is taken over (types/states shrink, known bits grow); stores inside the callee
+                    # (a new state) are taken over as they are
+                    st.env[a.id] = j.w(origin=o0.origin, op=o0.op)
         if split is not None and not (isinstance(rv, V) and rv.tag == 'proj'):
             return V('retsplit', split, None)
         if isinstance(rv, V) and rv.tag == 'proj':
@@ -963,7 +977,7 @@ class Interp:
                 o = env[lv.b]
                 if lv.a == 'type':
                     vals = None
-                    em = enum_member(r, 'ObjectType')
+                    em = enum_member(r, 'ObjectType') or self._const_member(rv, 'ObjectType')
                     if em:
                         vals = {em[1]}
                     elif isinstance(r, (ast.List, ast.Tuple, ast.Set)):
@@ -978,7 +992,7 @@ class Interp:
                         env[lv.b] = o.w(types=ts)
                     return st
                 if lv.a == 'state':
-                    em = enum_member(r, 'State')
+                    em = enum_member(r, 'State') or self._const_member(rv, 'State')
                     if em and isinstance(op, (ast.Eq, ast.NotEq, ast.Is, ast.IsNot)):
                         eq = isinstance(op, (ast.Eq, ast.Is)) == pol
                         ss = frozenset(s for s in o.states if (s == em[1]) == eq)
@@ -1013,6 +1027,13 @@ class Interp:
                     env[rv.b] = o.w(bits=o.bits | {c})
                 return st
         return st
+
+    @staticmethod
+    def _const_member(v, enum_cls):
+        """abstract constant holding a member of enum_cls (e.g. a parameter bound to enums.State.ACTIVE at the call site)"""
+        if isinstance(v, V) and v.tag == 'const' and isinstance(v.a, tuple) and len(v.a) == 2 and v.a[0] == enum_cls:
+            return v.a
+        return None
 
     def attr_type_value(self, member):
         ai = self.ai
